@@ -475,6 +475,12 @@ func init() {
 			m.Apply(pt.Action{Op: "dins", T: "a", P: 0, N: 2, V: "p"})
 			m.Apply(pt.Action{Op: "dins", T: "a", P: 2, N: 2, V: "p"})
 		}
+		if p.Prefix == "nest3" { // non-initial start state: containers two levels below the root, with handles taken
+			m.Apply(pt.Action{Op: "dput", K: "a", V: "n"})                  // a = {o:{p,q}}
+			m.Apply(pt.Action{Op: "dput", K: "b", V: "na"})                 // b = {l:[..], m}
+			m.Apply(pt.Action{Op: "dput", T: "a/o", K: "x", V: "p"})        // handle a/o
+			m.Apply(pt.Action{Op: "dins", T: "b/l", P: 0, N: 1, V: "p"})    // handle b/l
+		}
 		return m
 	}
 }
@@ -614,6 +620,9 @@ func c03Calls(ref *refModel, alpha string) []pt.Action {
 			// a handle to a replaced or deleted container (or primitive)
 			add(pt.Action{Op: "dput", T: "@" + p, K: "a", V: "p"})
 			add(pt.Action{Op: "dins", T: "@" + p, P: 0, V: "p", N: 1})
+			add(pt.Action{Op: "ddel", T: "@" + p, K: "x"})
+			add(pt.Action{Op: "dupd", T: "@" + p, P: 0, V: "p", N: 1})
+			add(pt.Action{Op: "darrdel1", T: "@" + p, P: 0})
 		}
 	}
 	return as
